@@ -101,6 +101,32 @@ inductive Space where
   | graph (nodes : List (UVal × Int)) (sys : Sys)
   deriving Repr
 
+/-- `int(v)` of a non-negative numeric default -/
+def defaultNat (o : Option Rat) (fallback : Nat) : Nat :=
+  match o with
+  | some r => r.floor.toNat
+  | none => fallback
+
+/-- `RDGridSpace(w=…, h=…, d=…, cell_env=…, cell_vol=…, boundary_conditions=…, units_system=sys)` with any of the
+arguments omitted: the generated constructor defaults apply.  A numeric default cell volume is a number of cubic SPACE
+units (`toUVal sys`); `cellEnv` as one number is applied to every cell. -/
+def mkGridSpace (w h d : Option Nat) (px py pz : Option Bool) (cellVol : Option QIn) (cellEnv : Option (List Int)) (sys : Sys) :
+    Res Space :=
+  let per (axis : String) : Bool := (gridDefaultBoundary.lookup axis) == some "periodical"
+  let g : GridShape := { w := w.getD (defaultNat gridDefaultW 1), h := h.getD (defaultNat gridDefaultH 1),
+                         d := d.getD (defaultNat gridDefaultD 1),
+                         px := px.getD (per "x"), py := py.getD (per "y"), pz := pz.getD (per "z") }
+  let env := cellEnv.getD (List.replicate g.size (match gridDefaultCellEnv with | some r => r.floor | none => 0))
+  match (cellVol.getD (.num (gridDefaultCellVol.getD 1))).toUVal sys Dim.volume with
+  | .error e => .error e
+  | .ok v => .ok (.grid g v env sys)
+
+/-- `RDGraphSpaceNode(volume=…, environment=…, units_system=sys)` with omitted arguments -/
+def mkGraphNode (vol : Option QIn) (env : Option Int) (sys : Sys) : Res (UVal × Int) :=
+  match (vol.getD (.num (nodeDefaultVolume.getD 1))).toUVal sys Dim.volume with
+  | .error e => .error e
+  | .ok v => .ok (v, env.getD (match nodeDefaultEnv with | some r => r.floor | none => 0))
+
 def Space.size : Space → Nat
   | .grid g _ _ _ => g.size
   | .graph nodes _ => nodes.length
